@@ -23,7 +23,7 @@ avars == <<live, cb, cfg, ast>>
 
 EmptyFn == [x \in {} |-> 0]
 AInit == /\ live = EmptyFn /\ cb = <<>> /\ cfg = [static |-> <<>>]
-         /\ ast = [chain |-> <<>>, cur |-> 0, bad |-> FALSE, dyn |-> <<>>, intact |-> TRUE, live |-> <<>>, cbuf |-> <<>>]
+         /\ ast = [chain |-> <<>>, cur |-> 0, bad |-> FALSE, dyn |-> <<>>, intact |-> TRUE, live |-> <<>>, cbuf |-> <<>>, stats |-> <<>>]
 
 AllRegions == {live[i].reg : i \in DOMAIN live} \cup {cb[i][2] : i \in DOMAIN cb}
 
@@ -82,6 +82,13 @@ AllDisjoint == /\ \A i, j \in DOMAIN live : i # j => RDisjoint(live[i].reg, live
                /\ \A i, j \in DOMAIN cb : i < j => RDisjoint(cb[i][2], cb[j][2])
 StaticFirst == (cfg.static # <<>> /\ ~ast.bad) => /\ Len(ast.chain) >= 1
                                     /\ RInside(ast.chain[1], cfg.static)
+(* statistics(): reserved = bytes of all blocks, used <= reserved, and everything live inside the chain is counted as used *)
+StatsOk == (ast.bad \/ ast.stats = <<>> \/ ast.chain = <<>>) \/
+           /\ ast.stats[1] = Len(ast.chain)
+           /\ ast.stats[3] = SumSeq([i \in DOMAIN ast.chain |-> RSize(ast.chain[i])])
+           /\ ast.stats[2] <= ast.stats[3]
+           /\ ast.stats[2] >= SumSeq([i \in DOMAIN ast.cbuf |-> IF InChain(ast, ast.cbuf[i][2]) THEN RSize(ast.cbuf[i][2]) ELSE 0])
+                               + SumSeq([i \in DOMAIN ast.live |-> IF InChain(ast, ast.live[i][2]) THEN RSize(ast.live[i][2]) ELSE 0])
 ChainBlocksDisjoint == \A i, j \in DOMAIN ast.chain : i < j => RDisjoint(ast.chain[i], ast.chain[j])
-AInv == ChainOk /\ ContentsIntact /\ LiveAsLogged /\ AllAligned /\ AllOwned /\ AllDisjoint /\ StaticFirst /\ ChainBlocksDisjoint
+AInv == StatsOk /\ ChainOk /\ ContentsIntact /\ LiveAsLogged /\ AllAligned /\ AllOwned /\ AllDisjoint /\ StaticFirst /\ ChainBlocksDisjoint
 =============================================================================
